@@ -9,7 +9,8 @@ OUT = os.path.join(VERIF, "seeded")
 props = {json.loads(l)["id"]: json.loads(l)["title"] for l in open(os.path.join(VERIF, "properties.jsonl"))}
 rows = []
 for root in sys.argv[1:]:
-    rnd = "r2" if root.rstrip("/").endswith("2") else ("r3" if root.rstrip("/").endswith("3") else "r1")
+    r = root.rstrip("/")
+    rnd = "r2" if r.endswith("2") else ("r3" if r.endswith("3") else ("r4" if r.endswith("4") else "r1"))
     for sd in sorted(glob.glob(os.path.join(root, "C??", "?"))):
         cj = os.path.join(sd, "confirm.json")
         if not os.path.exists(cj): continue
@@ -47,7 +48,7 @@ for root in sys.argv[1:]:
             "confirmed_by_me": {"how": "tools/confirm_seeds.sh in a scratch worktree of /repo: git apply, cargo test --workspace --no-fail-fast --offline, demo/run.sh with and without the change",
                                 "repo_commit": c.get("confirmed_at_repo_commit"), "tests": c.get("tests"), "demo_differs_with_change": True,
                                 "patch_rebased_by_hand": os.path.exists(os.path.join(sd, "patch.original.diff"))},
-            "checks_run": {p: {"exit": r["exit"], "violation_keys": r.get("violation_keys"), "first": r.get("first"), "seconds": r.get("seconds")} for p, r in ev.get("checks", {}).items()},
+            "checks_run": {p: {"exit": r["exit"], "violation_keys": r.get("violation_keys"), "first": r.get("first"), "seconds": r.get("seconds"), "harness_commit": r.get("harness_commit")} for p, r in ev.get("checks", {}).items()},
             "caught_by": ev.get("caught_by"),
             "first_version_of_the_checks": missed_before,
         }
